@@ -6,6 +6,14 @@ CLAIMED = {
    text="Lean theorems shape_sound / rtl_exact / rtl_operand_mask: for every well-formed expression of any depth and widths and every environment, the documented result shape contains the exact integer and the compiled simulator's value equals it. The hand-written model (shapeOf, evalRtl) and the Spec (denote) are tied to /repo on every run by a correspondence check: the exhaustive depth-1 operator table over operand widths 0..3 (all value pairs) and thousands of random deep expressions are simulated with the real code and compared with Model and Spec values computed by the native Lean driver.",
    note="Trusted: Lean kernel (axioms: propext, Classical.choice, Quot.sound), Lean compiler for the driver, the Python harness/generator, the binary-cat / ite-chain encoding of Concat/SwitchValue, CPython exec of the generated process source. Derived operators (abs, rotate, shift_left/right, matches, replicate, Mux, Array) are covered through the AST amaranth constructs for them, not through separate specs.",
    ref="DESIGN.md §6 C01"),
+ "C05": dict(cat="proof", tech="Lean 4 theorems (induction over expressions) + differential correspondence of ctx.get/ctx.set against circuits, model and bit-level spec",
+   text="Reads: theorems tb_exact / tb_eq_circuit prove, for every well-formed expression, that the model of eval_value returns the exact integer and hence what a combinational signal assigned the expression holds. Writes: the models of _eval_assign_inner (windows) and of the compiled LHS read-modify-write, and a per-bit Spec (lbits/applyBits: position k of the target is bit b of signal i or is dropped), are executed by the Lean driver; on every run thousands of random targets (slices, concatenations, part-selects with signal offsets incl. beyond the target, zero-width selectors, array elements, sign reinterpretations, nestings) x states x values are written both with ctx.set and with a one-shot sync assignment in a real circuit and all signals are compared with each other, with the models and with the Spec.",
+   note="Proved for all inputs: the read half. The write half (set_spec, set_eq_circuit) is at present tied by correspondence only (model = spec = impl on every sampled case); see DESIGN.md. Recorded finding F9 (aliased concatenation under a slice/part-select in compiled circuits) is classified, not hidden. Memory rows as targets are exercised by C11. Trusted: as C01.",
+   ref="DESIGN.md §6 C05"),
+ "C17": dict(cat="proof", tech="Lean 4 theorems (simulation relations over arbitrary event schedules, any stage count) + exhaustive/random schedule correspondence against the real primitives",
+   text="Theorems for every stage count n>=1, width, init value, edge polarity and every schedule of input-clock edges, output-clock edges, coincident edges and input changes: ff_latency / ff_initial_until_stages / ff_change_visible_at_stages (FFSynchronizer is an n-sample delay line in output edges), async_assert_immediate / async_release_after_stages (AsyncFFSynchronizer, ResetSynchronizer), pulse_single_cycle / pulse_conservation / pulse_never_spurious / pulse_loss_without_spacing (PulseSynchronizer: exactly one high output cycle per input pulse iff an output edge separates consecutive pulses; the hypothesis is proved necessary). The register-by-register model is tied to lib/cdc.py by replaying every transition of the enumerated reachable model graphs, and random schedules, on the real primitives with hand-driven clocks.",
+   note="Trusted: Lean kernel + standard axioms, Lean compiler for the driver, the harness. Input changes coincident with a clock edge (a physical race) are not in the schedules; domain resets of the wrapper domains are never asserted; platform overrides are not exercised.",
+   ref="DESIGN.md §6 C17"),
 }
 
 NOT_APPLICABLE = {
